@@ -37,17 +37,21 @@ Inductive route :=
 | RNone.                             (* no pattern of Mux.Initialise matches *)
 Inductive ctype := CtToml | CtCsv | CtJson | CtOther.
 
-Inductive fval := Fin (q : Q) | NonFin.                 (* NaN, +Inf, -Inf *)
+Inductive nonfin := NaN | PInf | NInf.
+Inductive fval := Fin (q : Q) | NonFin (k : nonfin).
 Inductive cell :=
 | CF (f : fval) (txt : string)   (* float64; txt = fmt.Sprintf("%v", f), what CellString returns *)
 | CB (b : bool)
 | CS (s : string).
 Record table := { t_header : list string; t_rows : list (list cell) }.
-Inductive csv_view := CsvErr | CsvOk (t : table).      (* CsvErr: reader error or no record at all *)
+Inductive csv_view := CsvErr | CsvOk (t : table) | CsvLibPanic.   (* CsvErr: reader error or no record at all *)
+(* The three ...LibPanic constructors: the library call itself panicked on this body.  The model propagates it as
+   [Panic]; the no-panic theorem of C15 is about requests whose library calls return (wf_request), which is the
+   "sampling for library internals" part of that property. *)
 
 Inductive aval := ANull | ABool (b : bool) | AStr (s : string) | AOther (canon : string).
 Definition attrs := list (string * aval).
-Inductive json_view := JsonErr | JsonAttrs (l : attrs).
+Inductive json_view := JsonErr | JsonAttrs (l : attrs) | JsonLibPanic.
 
 Section WithValuation.
 Context {V : Type}.
@@ -64,8 +68,9 @@ Inductive model_view :=
 | MInterpErr      (* interpreter errors: unknown type / parameter errors *)
 | MNotCatchment   (* interprets, but is not a *catchment.Model *)
 | MInitErr        (* Initialise(AsIs) recorded a data-source error *)
-| MOk (d : desc).
-Inductive toml_view := TomlErr | TomlOk (name : string) (m : model_view).
+| MOk (d : desc)
+| MLibPanic.      (* interpretation or initialisation panicked inside the model packages *)
+Inductive toml_view := TomlErr | TomlOk (name : string) (m : model_view) | TomlLibPanic.
 
 Record request := {
   rq_meth : meth; rq_route : route; rq_ctype : ctype; rq_raw : text;
@@ -328,6 +333,8 @@ Definition post_scenario (s : state) (r : request) : outcome :=
       | TomlOk name MInterpErr => fail 400 s
       | TomlOk name MNotCatchment => fail 400 s
       | TomlOk name MInitErr => fail 400 s
+      | TomlOk name MLibPanic => Panic
+      | TomlLibPanic => Panic
       | TomlOk name (MOk d) =>
           (* rememberScenarioAttributeState, then rememberModelState: Initialise(AsIs), SetId, derive, new pool *)
           let m0 := {| m_desc := d; m_id := name; m_bits := all_false d;
@@ -394,6 +401,7 @@ Definition patch_model (s : state) (r : request) : outcome :=
       | CtJson =>
           match rq_json r with
           | JsonErr => fail 400 s
+          | JsonLibPanic => Panic
           | JsonAttrs l =>
               match st_model s with
               | None => Panic                                 (* m.model nil: Compress(m.model) dereferences it *)
@@ -422,7 +430,7 @@ Definition get_active (s : state) : outcome :=
   | Some sn => do _ <- need_name s; respond (ok_json (BActive (active_map sn))) s     (* :54 *)
   end.
 
-Definition is01 (f : fval) : bool := match f with Fin q => Qeq_bool q 0%Q || Qeq_bool q 1%Q | NonFin => false end.
+Definition is01 (f : fval) : bool := match f with Fin q => Qeq_bool q 0%Q || Qeq_bool q 1%Q | NonFin _ => false end.
 Definition action_cell_ok (c : cell) : bool := match c with CF f _ => is01 f | _ => false end.
 Definition is_float_cell (c : cell) : bool := match c with CF _ _ => true | _ => false end.
 Definition row_ok (r : list cell) : bool :=
@@ -433,15 +441,21 @@ Definition actions_table_ok (t : table) : res bool :=
   do h0 <- header_at t 0;                                                   (* :212 Header()[0] *)
   if negb (String.eqb h0 "SubCatchment") then Ok false else Ok (forallb row_ok (t_rows t)).
 
-(* planningunit.Id(float64): truncation; out-of-range and non-finite convert to MinInt64 on amd64 *)
-Definition min_int64 : Z := (- 9223372036854775808)%Z.
+(* planningunit.Id is uint64.  planningunit.Id(float64) truncates; outside [0, 2^64) the Go specification leaves the
+   result implementation-defined -- this is what the amd64 code generator produces (compare with 2^63, CVTTSD2SQ,
+   xor of the sign bit), checked against the running binary by the correspondence ("conv" cases). *)
+Definition two63 : Z := 9223372036854775808%Z.
+Definition two64z : Z := 18446744073709551616%Z.
 Definition pu_of_float (f : fval) : Z :=
   match f with
-  | NonFin => min_int64
+  | NonFin NaN => 0%Z
+  | NonFin PInf => 0%Z
+  | NonFin NInf => two63
   | Fin q => let z := Z.quot (Qnum q) (Z.pos (Qden q)) in
-             if (min_int64 <=? z)%Z && (z <? 9223372036854775808)%Z then z else min_int64
+             if (0 <=? z)%Z then (if (z <? two64z)%Z then z else 0%Z)
+             else if (- two63 <=? z)%Z then (two64z + z)%Z else two63
   end.
-Definition float_is_zero (f : fval) : bool := match f with Fin q => Qeq_bool q 0%Q | NonFin => false end.
+Definition float_is_zero (f : fval) : bool := match f with Fin q => Qeq_bool q 0%Q | NonFin _ => false end.
 
 Fixpoint set_matching (pu : Z) (ty : string) (v : bool) (acts : list (Z * string)) (bits : list bool) : list bool :=
   match acts, bits with
@@ -488,6 +502,7 @@ Definition put_active (s : state) (r : request) : outcome :=
       | CtCsv =>
           match rq_csv r with
           | CsvErr => fail 400 s
+          | CsvLibPanic => Panic
           | CsvOk t =>
               do ok <- actions_table_ok t;
               if negb ok then fail 400 s else
@@ -560,6 +575,7 @@ Definition put_subcatchment (s : state) (id : option Z) (r : request) : outcome 
           do _ <- need_name s;                                                         (* :133 *)
           match rq_json r with
           | JsonErr => fail 400 s
+          | JsonLibPanic => Panic
           | JsonAttrs l =>
               if negb (syntax_ok l) then fail 400 s else
               match st_model s with
@@ -635,7 +651,7 @@ Fixpoint asis_row_ok (asis : list (string * Q)) (k : nat) (hdr : list string) (c
               | None => Ok false
               | Some mv => match f with
                            | Fin q => if Qeq_bool q mv then asis_row_ok asis k' hdr' cells' else Ok false
-                           | NonFin => Ok false
+                           | NonFin _ => Ok false
                            end
               end
           | _ => Ok false
@@ -667,6 +683,7 @@ Definition post_solutions (s : state) (r : request) : outcome :=
       | CtCsv =>
           match rq_csv r with
           | CsvErr => fail 400 s
+          | CsvLibPanic => Panic
           | CsvOk t =>
               do ok <- summary_table_ok t;
               if negb ok then fail 400 s else
